@@ -27,6 +27,8 @@ func c09Gen(r *rand.Rand, tier string) []spec.Case {
 	}
 	for _, s := range sides {
 		add("mux", "accept-at-expiry:"+s)
+		add("mux", "staggered-dials-then-accept:"+s)
+		add("grpc", "staggered-dials-then-accept:"+s)
 	}
 	// random histories of length 2-4 (the stale-knock step of grpcmux only in its dedicated single-step cases above)
 	n := 12
@@ -37,7 +39,7 @@ func c09Gen(r *rand.Rand, tier string) []spec.Case {
 		k := pick(r, []string{"mux", "mux", "grpc", "grpcmux"})
 		pool := append([]string(nil), common...)
 		if k == "mux" {
-			pool = append(pool, "accept-at-expiry", "dial-timeout-then-accept")
+			pool = append(pool, "accept-at-expiry", "dial-timeout-then-accept", "staggered-dials-then-accept")
 		}
 		if k == "grpc" {
 			pool = append(pool, "dial-timeout-then-accept")
@@ -123,7 +125,7 @@ func c09Judge(c spec.Case, evs []spec.Event, d *Death) CaseResult {
 				viol("accept-and-serve-stuck", s.Step+": "+s.Errs[0])
 			}
 		}
-		if time.Duration(s.Ms)*time.Millisecond > 12*time.Second && name != "accept-at-expiry" && name != "dial-timeout-then-accept" && name != "accept-timeout-then-dial" {
+		if time.Duration(s.Ms)*time.Millisecond > 12*time.Second && name != "accept-at-expiry" && name != "staggered-dials-then-accept" && name != "dial-timeout-then-accept" && name != "accept-timeout-then-dial" {
 			res.Slow = fmt.Sprintf("%s took %d ms", s.Step, s.Ms)
 		}
 	}
@@ -188,7 +190,7 @@ func init() {
 		ID: "C09", Level: "exploration", Race: true, TestName: "TestC09",
 		Gen: c09Gen, Batch: 64, Children: 4, PerCase: 3 * time.Second, Base: 240 * time.Second,
 		Judge: c09Judge, Finish: c09Finish,
-		Rule: "cases = histories over {dial-noaccept, accept-nodial, dial-twice (same id), dial-timeout-then-accept (late accept), accept-timeout-then-dial (late dial), accept-at-expiry (Accept lined up with the expiry of a parked connection through hook points)} x acting side, on MuxBroker, GRPCBroker and multiplexed GRPCBroker, each on its own in-process connection pair (both ends real go-plugin code), followed by a matched pair on a fresh id in each direction and a close; every single step per kind and side plus random histories of length 2-4. Class = kind + multiset of steps",
+		Rule: "cases = histories over {dial-noaccept, accept-nodial, dial-twice (same id), staggered-dials-then-accept (second dial half-way through the first one's window, then an unmatched accept after the first expired), dial-timeout-then-accept (late accept), accept-timeout-then-dial (late dial), accept-at-expiry (Accept lined up with the expiry of a parked connection through hook points)} x acting side, on MuxBroker, GRPCBroker and multiplexed GRPCBroker, each on its own in-process connection pair (both ends real go-plugin code), followed by a matched pair on a fresh id in each direction and a close; every single step per kind and side plus random histories of length 2-4. Class = kind + multiset of steps",
 		Assumptions: []string{
 			"nominal bound 5 s; a call counts as hung only after 40 s (2 x H, H = 20 s) for steps and 20 s for fresh pairs",
 			"for GRPCBroker an unmatched accept is an AcceptAndServe that is stopped through its server after 300 ms (Accept itself returns a listener at once)",
